@@ -296,6 +296,14 @@ pub fn gen_program(seed: u64) -> Program {
         files.push(("extra/side.incn".to_string(), "def   lower_side( ) -> int:\n    return 4\n".to_string()));
         targets.push("directory walk order".to_string());
     }
+    if r.chance(1, 4) {
+        // several files that cannot be formatted (syntax / lexical errors): the error path of a directory run
+        for (i, name) in ["a_big.incn", "c_bad.incn", "pkgz/e_bad.incn", "y_bad.incn", "m_bad.incn"].iter().enumerate() {
+            let pad = if i == 0 { "# filler\n".repeat(400) } else { String::new() };
+            files.push((name.to_string(), format!("{pad}def broken_{i}( -> int:\n    return {i}\n")));
+        }
+        targets.push("fmt error path".to_string());
+    }
     files.push(("main.incn".to_string(), main));
     targets.sort();
     targets.dedup();
@@ -702,10 +710,12 @@ fn isolate_dimension(p: &Program, a: &World, b: &World, scratch: &Path, fakebin:
     // two runs in the *same* world (same directory, recreated): if they still differ, no world dimension is to blame
     // but the identity of the process itself (pid, real time)
     if subproc {
-        let r = run_case(p, &[a.clone(), a.clone()], scratch, fakebin, subproc);
-        if let Some((_, k, _, _)) = &r.mismatch {
-            if key_class(k) == key_class(key) {
-                return ("process-identity".to_string(), a.clone());
+        for _ in 0..6 {
+            let r = run_case(p, &[a.clone(), a.clone()], scratch, fakebin, subproc);
+            if let Some((_, k, _, _)) = &r.mismatch {
+                if key_class(k) == key_class(key) {
+                    return ("process-identity".to_string(), a.clone());
+                }
             }
         }
     }
@@ -843,6 +853,15 @@ fn worlds_for(root: u64, i: u64, n: usize, nnodes: usize) -> Vec<World> {
     (0..n).map(|k| gen_world(&mut r, k, nnodes)).collect()
 }
 
+/// Subprocess cases also repeat world 0 (same directory, recreated): what one world prints must not vary between runs.
+fn with_repeat(mut w: Vec<World>, subproc: bool) -> Vec<World> {
+    if subproc && !w.is_empty() {
+        let again = w[0].clone();
+        w.insert(1, again);
+    }
+    w
+}
+
 pub fn silence_stdout() -> i32 {
     unsafe {
         let saved = libc::dup(1);
@@ -883,7 +902,7 @@ fn worker(args: &[String], spec: par::WorkerSpec) {
     let mut i = spec.index;
     while i < total {
         let (p, subproc) = case_program(root, i, &corpus, n_in);
-        let worlds = worlds_for(root, i, if subproc { w_sub } else { w_in }, p.files.len());
+        let worlds = with_repeat(worlds_for(root, i, if subproc { w_sub } else { w_in }, p.files.len()), subproc);
         let r = run_case(&p, &worlds, &scratch, &fakebin, subproc);
         done += 1;
         *counters.entry(format!("cases_{}", if subproc { "subprocess" } else { "inprocess" })).or_insert(0) += 1;
@@ -989,8 +1008,17 @@ pub fn main(args: &[String]) {
         let idx = v["index"].as_u64().unwrap_or(0);
         let subproc = v["subproc"].as_bool().unwrap_or(false);
         let (p, _) = case_program(root, idx, &corpus, n_in);
-        let worlds = worlds_for(root, idx, if subproc { w_sub } else { w_in }, p.files.len());
-        let again = run_case(&p, &worlds, &scratch, &fakebin, subproc);
+        let worlds = with_repeat(worlds_for(root, idx, if subproc { w_sub } else { w_in }, p.files.len()), subproc);
+        let mut again = run_case(&p, &worlds, &scratch, &fakebin, subproc);
+        if v["class"] != "crash" && again.mismatch.is_none() && subproc {
+            // real processes: an output that differs only sometimes is nondeterministic output; look again a few times
+            for _ in 0..8 {
+                again = run_case(&p, &worlds, &scratch, &fakebin, subproc);
+                if again.mismatch.is_some() {
+                    break;
+                }
+            }
+        }
         if v["class"] == "crash" {
             if again.crashed.is_none() {
                 restore_stdout(saved);
